@@ -84,7 +84,8 @@ prop(
 
 prop(
     "C04",
-    configs={"quick": ["rel", "dbg"], "thorough": ["rel", "dbg"]},
+    configs={"quick": ["rel", "dbg", "race"], "thorough": ["rel", "dbg", "race"]},
+    race_batches={"quick": 4, "thorough": 8},
     timeout={"quick": 300, "thorough": 3000},
     rule="(a) hand-encoded messages: 0..8 attributes before MESSAGE-INTEGRITY, 0..4 after (all residues, incl. FINGERPRINT and a second "
          "MESSAGE-INTEGRITY), MAC variants correct/random/other-key/truncated 0,4,19/extended 21,24/bit-flipped/absent, random padding, "
@@ -466,6 +467,31 @@ RULE_EXTRA = {
            "destinations across lengths 7, 300, 0, 120, 300; Check(key A), Check(key B), Build(... key C), Check(key A) in turn",
 }
 for _pid, _x in RULE_EXTRA.items():
+    PROPS[_pid]["rule"] = PROPS[_pid]["rule"] + _x
+
+# Workloads added against the sixth wave (DESIGN 9.5).
+RULE_EXTRA6 = {
+    "C01": "; entry 'self-aliased input' (the bytes live in the receiver's own buffer); ReadFrom fed by a datagram source (one Read per call); 300 values kept from dropped messages across GCs; 8 concurrent decoders",
+    "C02": "; every byte-taking entry point (Decode, m.Decode, UnmarshalBinary, GobDecode, Write, CloneTo) with the argument overwritten afterwards; destinations previously holding a 150-attribute message",
+    "C03": "; bystander messages (built earlier, built meanwhile, second message of the same gob value) must stay unchanged after every operation; start state: two messages decoded from one gob value",
+    "C04": "; derived long-term keys wiped by an earlier holder; passwords up to 9000 bytes; 8 goroutines signing/checking concurrently (also in the race build)",
+    "C05": "; in-place single-bit flips on the message the setter was applied to (0..13 spare bytes); Message.Check(integrity, Fingerprint) in both orders on every flipped copy",
+    "C06": "; one receiver over messages A, B, A; nil ERROR-CODE reason; ErrorCode default phrase unchanged after the application edited a decoded Reason; a kept text value while the variable reads another message",
+    "C07": "; every message read earlier through a receiver stays unchanged; persistent receivers for all address/text getters and an integrity check whose key buffer is rewritten in place; planted correct MACs must pass",
+    "C08": "; unrelated messages built between uses; follow-up 'decode the message carried in its own DATA attribute' compared with an independent decode",
+    "C09": "; refusals on a message decoded with bytes behind it; ERROR-CODE with nil reason for every code; limit probes after a history of large setters on other messages",
+    "C10": "; targeted: application stops a transaction on the shared agent; short write without error; ticker collector with a jumping Clock (every Collect time must be a Clock reading)",
+    "C11": "; targeted: clock moved by a write inside a tick with two requests due; Close parked inside a retransmitting tick (agent.Start.after, conn.Write.before); three clients, one abandoning a retransmission (buffers not shared)",
+    "C12": "; 3..2500 consecutive timeout read errors before a response",
+    "C13": "; id families colliding under word folds; handler registering an overdue transaction during a mass Collect",
+    "C14": "; 16 agents dropped with transactions in flight across GCs: no event",
+    "C15": "; Read returning timeouts forever after Close under WithNoConnClose; fallback handler calling Indicate/Start(nil) during Close; agent and connection close errors identical or wrapping each other; Close parked deeper inside a retransmitting tick",
+    "C16": "; five-label numeric hosts, non-ASCII zones; the process resolver is replaced by a counting one that must never be contacted",
+    "C18": "; keys as windows of larger buffers (canary and message right behind); bursts of up to 300 objects held at once; SHA-1 and SHA-256 pools in turn with the same key",
+    "C19": "; exported Binding* variables reassigned during a full-domain sweep",
+    "C20": "; Build in place from the values returned by the message's own getters (4 layouts)",
+}
+for _pid, _x in RULE_EXTRA6.items():
     PROPS[_pid]["rule"] = PROPS[_pid]["rule"] + _x
 
 LEVELS = {'C01': ('exploration', "runtime monitoring of the real decoder on generated/mutated/hostile inputs: recover + child-process supervision, pointer-range monitor on Attributes[i].Value, MemStats delta, red-zone and poisoned placements, release/debug/race(checkptr) builds; says 'held on K inputs', catches dropped or weakened length guards, aliasing entry points and length-field-proportional allocation", 'differential + memory-view monitor over generated inputs'), 'C02': ('exploration', 'differential monitor against an independent RFC 5389 parser; the space of length structures up to a body bound is enumerated completely, the rest is seeded random/mutated; Get/Contains/ForEach checked against list semantics on every accepted input', 'differential testing vs reference parser, bounded-exhaustive'), 'C03': ('exploration', 'after-every-operation invariant monitor over random building sequences with a shadow (type,value) list: reference parse of Raw == shadow == struct == library decode, Equal, zero padding, canonical bytes after Encode', 'invariant monitor over operation sequences'), 'C04': ('exploration', 'differential monitor: library Check verdict vs crypto/hmac over the span chosen by the reference parser, on hand-encoded variants, library-signed messages, wrong keys and every single-bit flip; release and debug builds', 'differential oracle + exhaustive bit-flip sweep per message'), 'C05': ('exploration', 'differential monitor against a bitwise CRC-32; every bit position of each fingerprinted message and random bursts; arbitrary FINGERPRINT placements judged by the iff', 'differential oracle + exhaustive bit-flip sweep per message'), 'C06': ('exploration', 'two-way differential against independent RFC encoders/decoders; ports, text lengths and error codes swept completely, the rest random', 'differential testing vs reference codecs'), 'C07': ('exploration', 'metamorphic twin monitor (same value, different surroundings/position/capacity) + before/after snapshot + red-zone placement over the complete getter x length x position x capacity grid', 'metamorphic twins + snapshot monitor'), 'C08': ('exploration', 'fresh-twin differential over chains of uses with poisoned spare capacity and scribbled caller buffers', 'fresh-twin differential with poisoning'), 'C09': ('exploration', 'boundary sweep of every setter against a hard-coded limit table with before/after snapshots and call counters for Build', 'boundary sweep + snapshot monitor'), 'C10': ('exploration', 'online comparison with an executable client model on all short histories, targeted pairwise control-point interleavings through the public seams, and an exactly-once ledger over perturbed concurrent runs (also under the race detector)', 'model-based history checking + exactly-once ledger over event logs'), 'C11': ('exploration', 'write-log oracle with virtual timestamps along complete retransmission schedules, plus the model and ledger workloads of C10 with the write oracle', 'trace checking of the write log under virtual time'), 'C12': ('exploration', 'unique-payload ledger: every datagram is tagged, every handler copies what it sees; routing decided at delivery time is compared with what handlers and the fallback handler observed; pool churn; race detector', 'unique-value ledger over handler and fallback logs'), 'C13': ('exploration', 'the real Agent is run next to an executable transaction-table model on EVERY call sequence up to the depth bound (all abstract table states visited) and on long random sequences with re-entrant handlers', 'exhaustive bounded model conformance'), 'C14': ('exploration', 'recorded concurrent histories checked for linearizability with porcupine against the C13 model, Go race detector, stuck-goroutine watchdog', 'linearizability checking of recorded histories (porcupine) + race detector'), 'C15': ('exploration', 'ledger over simulated-world counters and logical stamps, process-wide goroutine dump scan after Close, race detector; option product and Close placed everywhere', 'ledger + goroutine-dump scan + race detector'), 'C16': ('exploration', 'the supervising process is the oracle: children with a 1 MiB stack limit and heap watchdog, crash journal naming the input, confirmation re-run; exhaustive short strings + random long ones', 'process-level supervision with crash journal'), 'C17': ('exploration', 'expected components known by construction over the complete grammar product; round trip; DialURI observed through an injected recording network (network, address, first bytes: ClientHello vs plaintext, server name)', 'components-by-construction differential + recording fake network'), 'C18': ('exploration', 'every digest of random acquire/write/sum/reset/put programs compared with crypto/hmac, single- and multi-goroutine, race detector', 'differential vs crypto/hmac under pool reuse'), 'C19': ('exploration', "complete domain (16384 + 65536 points) against a bit-by-bit table from RFC 5389 figure 3: for this property 'held on what was observed' is the whole statement", 'exhaustive enumeration of the complete domain'), 'C20': ('exploration', 'testing.AllocsPerRun per operation and generated message in a dedicated single-P process with GC off, two warm-up regimes, repeat-to-confirm', 'allocation monitor (AllocsPerRun) in a dedicated process')}
